@@ -320,11 +320,12 @@ def run_cases(ctx, cases):
 
 def run(ctx):
     ctx.make_overlay(need_kernel=True)
-    ctx.regen_all()
+    ctx.regen_all(needed=("py2v_design.py",))  # Gen/DesignGen.v: the two design-matrix builders as the source has them now
     ok = ctx.build_models(MODELS)
     if ok:
         ctx.build_props()
         ctx.build_props("Props/C08b.vo")  # permutation invariance of the marginal likelihood (MathComp)
+        ctx.build_props("Props/C08g.vo")  # the generated design-matrix builders are the model (offset columns after v0, trend terms last)
     cases = gen_cases(ctx)
     n_eval = nt = 0
     try:
